@@ -12,7 +12,6 @@
 package simsched
 
 import (
-	"reflect"
 	"runtime"
 	"sync"
 )
@@ -688,6 +687,11 @@ func (w *WaitGroup) Wait() {
 }
 
 // ---------------------------------------------------------------- channels
+// WouldBlock is raised when a channel operation would block while no run is
+// active (package initialisation, fixture building): there is no other task that
+// could ever complete it.
+const WouldBlock = "simsched: channel operation would block outside a scheduled run"
+
 // Chan replaces `chan T` in instrumented library code (make, send, receive,
 // close, range and select are rewritten). While a run is active it is a queue
 // whose blocking operations yield to other tasks; its mutex is a real one, taken
@@ -695,7 +699,6 @@ func (w *WaitGroup) Wait() {
 // edge from each send to the receives after it (an over-approximation that can
 // hide a race, never invent one).
 type Chan[T any] struct {
-	real    chan T
 	mu      sync.Mutex
 	buf     []T
 	capa    int
@@ -710,7 +713,7 @@ type integer interface {
 }
 
 func MakeChan[T any, N integer](n N) *Chan[T] {
-	return &Chan[T]{real: make(chan T, int(n)), capa: int(n)}
+	return &Chan[T]{capa: int(n)}
 }
 
 // wakeAll: something changed that a waiting task may have been waiting for.
@@ -724,8 +727,17 @@ func wakeAll() {
 }
 
 func (c *Chan[T]) Send(v T) {
-	if !isActive() {
-		c.real <- v
+	if !isActive() { // same queue, but nobody to wait for
+		c.mu.Lock()
+		defer c.mu.Unlock()
+		if c.closed {
+			panic("send on closed channel")
+		}
+		if len(c.buf) >= c.capa {
+			panic(WouldBlock)
+		}
+		c.buf = append(c.buf, v)
+		c.sent++
 		return
 	}
 	if c == nil {
@@ -764,8 +776,19 @@ func (c *Chan[T]) Send(v T) {
 
 func (c *Chan[T]) Recv2() (T, bool) {
 	if !isActive() {
-		v, ok := <-c.real
-		return v, ok
+		c.mu.Lock()
+		defer c.mu.Unlock()
+		if len(c.buf) > 0 {
+			v := c.buf[0]
+			c.buf = c.buf[1:]
+			c.taken++
+			return v, true
+		}
+		if c.closed {
+			var zero T
+			return zero, false
+		}
+		panic(WouldBlock)
 	}
 	if c == nil {
 		for {
@@ -807,10 +830,6 @@ func (c *Chan[T]) Recv2() (T, bool) {
 func (c *Chan[T]) Recv() T { v, _ := c.Recv2(); return v }
 
 func (c *Chan[T]) Close() {
-	if !isActive() {
-		close(c.real)
-		return
-	}
 	c.mu.Lock()
 	if c.closed {
 		c.mu.Unlock()
@@ -825,8 +844,6 @@ func (c *Chan[T]) Close() {
 type SelCase interface {
 	ready() bool
 	fire()
-	reflectCase() reflect.SelectCase
-	took(v reflect.Value, ok bool)
 }
 
 type sendCase[T any] struct {
@@ -861,13 +878,6 @@ func (s *sendCase[T]) fire() {
 	s.c.sent++
 	s.c.mu.Unlock()
 }
-func (s *sendCase[T]) reflectCase() reflect.SelectCase {
-	if s.c == nil {
-		return reflect.SelectCase{Dir: reflect.SelectSend, Chan: reflect.ValueOf((chan T)(nil)), Send: reflect.ValueOf(s.v)}
-	}
-	return reflect.SelectCase{Dir: reflect.SelectSend, Chan: reflect.ValueOf(s.c.real), Send: reflect.ValueOf(s.v)}
-}
-func (s *sendCase[T]) took(reflect.Value, bool) {}
 
 // RecvC: `case v, ok := <-c`; V and OK hold what was received.
 type RecvC[T any] struct {
@@ -898,38 +908,11 @@ func (r *RecvC[T]) fire() {
 	}
 	r.c.mu.Unlock()
 }
-func (r *RecvC[T]) reflectCase() reflect.SelectCase {
-	if r.c == nil {
-		return reflect.SelectCase{Dir: reflect.SelectRecv, Chan: reflect.ValueOf((chan T)(nil))}
-	}
-	return reflect.SelectCase{Dir: reflect.SelectRecv, Chan: reflect.ValueOf(r.c.real)}
-}
-func (r *RecvC[T]) took(v reflect.Value, ok bool) {
-	if ok {
-		r.V = v.Interface().(T)
-	}
-	r.OK = ok
-}
 
 // Select replaces a select statement: it returns the index of the case that
 // fired, or -1 for the default case. Which ready case is taken is decided by the
 // yield ordinal, i.e. by the plan, never by a random source.
 func Select(hasDefault bool, cases ...SelCase) int {
-	if !isActive() {
-		rc := make([]reflect.SelectCase, 0, len(cases)+1)
-		for _, c := range cases {
-			rc = append(rc, c.reflectCase())
-		}
-		if hasDefault {
-			rc = append(rc, reflect.SelectCase{Dir: reflect.SelectDefault})
-		}
-		i, v, ok := reflect.Select(rc)
-		if i == len(cases) {
-			return -1
-		}
-		cases[i].took(v, ok)
-		return i
-	}
 	for {
 		n := len(cases)
 		start := selStart(n)
@@ -943,6 +926,9 @@ func Select(hasDefault bool, cases ...SelCase) int {
 		}
 		if hasDefault {
 			return -1
+		}
+		if !isActive() {
+			panic(WouldBlock)
 		}
 		spinYield()
 	}
